@@ -164,16 +164,16 @@ class Executor:
             return b
         if b is MISSING:
             return a
-        ta, tb = type(a), type(b)
-        if isinstance(a, bool) or isinstance(b, bool) or z3.is_bool(a) if is_term(a) else False:
+        def boolish(v):
+            return isinstance(v, bool) or (is_term(v) and z3.is_bool(v))
+        if boolish(a) and boolish(b):
             if isinstance(a, bool) and isinstance(b, bool) and a == b:
                 return a
-            if (isinstance(a, bool) or (is_term(a) and z3.is_bool(a))) and (isinstance(b, bool) or (is_term(b) and z3.is_bool(b))):
-                if a is True and b is False:
-                    return c
-                if a is False and b is True:
-                    return b_not(c)
-                return z3.If(c, b_term(a), b_term(b))
+            if a is True and b is False:
+                return c
+            if a is False and b is True:
+                return b_not(c)
+            return z3.If(c, b_term(a), b_term(b))
         if (is_conc_int(a) or (is_term(a) and not z3.is_bool(a))) and (is_conc_int(b) or (is_term(b) and not z3.is_bool(b))):
             if is_conc_int(a) and is_conc_int(b):
                 if a == b:
